@@ -416,7 +416,9 @@ type RichCfg struct {
 
 var nameShapes = []string{"x", "Tok", "_t", "t_1", "T9", "LongTokenNameWithManyLettersAndDigits0123456789", "tÄ", "ñandú", "Λ", "t__", "Z_z",
 	// names that are another name plus digits, or differ only in case
-	"X", "X1", "X11", "X2", "T1", "T12", "tok"}
+	"X", "X1", "X11", "X2", "T1", "T12", "tok",
+	// names that look like words of the grammar language or of the generator itself
+	"token", "left", "prec", "accept", "end", "operator", "union_x", "Left", "TOKEN"}
 
 // Rich produces a usable random grammar that exercises the declaration
 // section: explicit token numbers, literals, tags, tokens declared by %token /
